@@ -189,10 +189,19 @@ def run(ctx):
         strf = to_string_role(facts)
         m = pairs.decision_matrix(roles, f_eq, str_to_number_key=s2n.key, to_string_key=strf.key if strf is not None else None)
         ctx.floor("kind pairs (%s)" % cfg, len(m), 36)
-        ctx.floor("kind pairs read (%s)" % cfg, sum(1 for o in m.values() if not o.kind.startswith("UNREAD")), 1)
+        nread = sum(1 for o in m.values() if not o.kind.startswith("UNREAD"))
+        looped = bool(f_eq.back_edges())
+        if nread == 0 and looped:
+            # the equality function iterates (the coercion steps re-enter a loop with carried operands instead of
+            # recursing): its decision cases are not a finite table of this reader — not read, neither pass nor fail
+            ctx.unread("K2.pair", "all 36 kind pairs (%s)" % cfg, "the equality function %s is a loop with carried state: its per-pair decision cases were not read (%s)" % (f_eq.key.split("::", 1)[1], next(iter(m.values())).kind[7:-1][:120]), where=f_eq.where(), fn=f_eq.key)
+        else:
+            ctx.floor("kind pairs read (%s)" % cfg, nread, 1)
         nconv = 0
         for (a, b), o in sorted(m.items()):
             want = spec["%s,%s" % (a, b)]
+            if o.kind.startswith("UNREAD") and nread == 0 and looped:
+                continue
             if o.kind.startswith("UNREAD"):
                 ctx.unread("K2.pair", "%s == %s (%s)" % (a, b, cfg), "the case for %s == %s is written in a form that is not read: %s" % (a, b, o.kind[7:-1]), where=f_eq.where(), fn=f_eq.key)
                 continue
